@@ -74,6 +74,11 @@ class C03(C20):
         case['prebind'] = [src.n(3), gen.gen_term(src, [], self.cfg, 1)] if src.n(4) == 3 else None
         if case['ending']['kind'] == 'pyraise' and not case['replaced']:
             case['ending']['kind'] = 'close'
+        # a most general query for one of the program's predicates: the shape that most often has several answers
+        heads = [h for h, _ in tt(case['clauses']) if h[0] == 'f']
+        if heads:
+            h = src.pick(heads)
+            case['queries'] = list(case['queries']) + [('f', h[1], tuple(gen.QVARS[i % 3] if i < 3 else ('v', 'Q%d' % i) for i in range(len(h[2]))))]
         case['kind'] = 'query'
         return case
 
